@@ -1,6 +1,7 @@
 """C19 - string codecs and helpers: base64 tables / bit provenance / skip positions, hex digit tables vs the parser, scan
 windows of split, writer/reader quoting agreement, three-way comparator orientation, case-insensitive overload families,
-forwarding roles, replace_all resume position.
+forwarding roles, replace_all resume position, and the values of the pure helpers (trim family, starts/ends-with, contains,
+case maps, erase_all, replace_first/all, pad, levenshtein, join with split as its inverse) against their documented definition.
 
 Every rule here is decided by EVALUATION: the extracted AST of the function is run on a small abstract machine (rule-local,
 below) for a complete small family of inputs (all 256 byte values, symbolic bytes whose bits are traced, all strings over a
@@ -8,8 +9,43 @@ two-letter alphabet up to length 4, ...) and the result is compared with the spe
 always a concrete counterexample (input, what the code yields, what it must yield).  Nothing is concluded from the shape of
 the code: a construct the machine does not model is "cannot decide" (dtable.Undecidable, exit 2), never a violation, so a
 behaviour-preserving rewrite (renamed locals, helper functions, other loop forms, early returns, std algorithms instead of
-loops, ...) is either evaluated like the original or not decided."""
+loops, ...) is either evaluated like the original or not decided.
+
+Rules on the pure helpers (one instance per overload; an overload that vanished, is ambiguous, or is new and has no input
+family is "cannot decide"; each overload is decided on its own, so an undecidable one does not hide another's violation):
+  TRIM-SEMANTICS   27 overloads: {trim, trim_left, trim_right} x {std::string*, string_view*, string_view} x {default drop set,
+                   string_view drop, char drop}.  Inputs: ~100 strings with every end shape (all strings over {space, x, NUL} up
+                   to length 3, over {space, x} of length 4, each of space / CR / LF / tab / VT / FF / NUL / 0xE9 / 0xA0 / letters
+                   alone, left, right and on both sides of a letter) x drop sets {" \r\n\t" by default}, chars {space, NUL, 0xE9,
+                   x}, views {space,0xE9} in the middle of a longer buffer, {space,NUL,tab}, {NUL,space}, an empty view in the
+                   middle of a buffer, " \r\n\t" not NUL-terminated.  Reference: strip exactly the bytes of the drop set from
+                   the documented end(s); the in-place forms must leave the same bytes in the object and in the returned reference.
+  AFFIX-SEMANTICS  12 overloads: starts_with, starts_with_icase, 4 x ends_with, 4 x ends_with_icase, 2 x contains.  Inputs: all
+                   (str, match) pairs of words over {x,y} up to length 3 instantiated with letters, case pairs, non-letters 0x20
+                   apart (@ `, [ {), 0xC9/0xE9 and NUL; buffers are exactly as long as the strings, so a read past the shorter
+                   one is a fault of the run.  Reference: bytes.startswith / endswith / in, on ASCII-lower-cased bytes for _icase.
+  CASE-MAP         6 overloads: to_lower / to_upper x {char, std::string*, string_view}.  Inputs: all 256 chars; the strings of all
+                   256 byte values ascending / descending (also as a view into a longer buffer), short ones.  Reference: only
+                   A-Z / a-z move, by 0x20; length and order kept.
+  ERASE-ALL        4 overloads.  Inputs: all strings over {x, space, NUL} up to length 4 (+ tab / CR / LF / 0xE9 strings) x the
+                   drop sets of TRIM-SEMANTICS.  Reference: filter.
+  REPLACE-FIRST    4 overloads of replace_first; REPLACE-BYTES the 4 of replace_all (REPLACE-RESUME keeps its {a,b} family).
+                   Inputs: strings over {a,b} up to length 4 x needles x replacements (replace_first), strings over {a, NUL, 0xE9}
+                   up to length 3 x needles / replacements containing NUL / 0xE9 / given as non-terminated views.  Reference:
+                   bytes.replace(needle, instead[, 1]).
+  PAD              pad(string_view, len, char): strings over {a, NUL, 0xE9} up to length 3 (views followed by other bytes) x len 0..5
+                   x 4 pad chars.  Reference: (str + pad * len)[:len].
+  LEVENSHTEIN      levenshtein / levenshtein_icase x {C strings, string_views} (extracted from the header): all pairs of strings
+                   over {a,b} up to length 3 and some longer, case pairs, non-letters, high bytes, NUL in views.  Reference: the
+                   textbook dynamic programme with unit costs (on lower-cased bytes for _icase).
+  JOIN-SPLIT       join(char | const char* | string_view glue, vector<string>): 1..3 parts over {a, NUL, 0xE9} x glue incl. NUL,
+                   0xE9, two bytes, empty, non-terminated view.  Reference: glue.join(parts); and whenever the glue is non-empty
+                   and occurs in the joined string at the glue positions only (it neither occurs in nor straddles the parts),
+                   split(glue, joined) of split.cpp must return the parts.
+Not decided here: the default ARGUMENTS written in the headers (pad_char = ' ', erase_all drop = ' '): the extractor does not
+hand out default-argument expressions of declarations; the `limit` forms of split are covered by SCAN-WINDOW on {a,b} only."""
 import itertools
+import os
 
 from engine import ir, dtable
 from engine.ir import kids
@@ -18,8 +54,10 @@ Und = dtable.Undecidable
 
 
 # ------------------------------------------------------------------ abstract machine
-# A small interpreter for the string helpers' ASTs.  Integers, bytes, pointers into buffers, std::string, string_view and
-# std::vector<string|string_view> are concrete; bytes of an input may also be symbolic bit vectors (base64 bit provenance).
+# A small interpreter for the string helpers' ASTs.  Integers, bytes, pointers into buffers, std::string, string_view (a value
+# that its own members clear / remove_prefix / remove_suffix change in place), std::vector<string|string_view|integer>,
+# tlx::simple_vector<integer> (elements start uninitialised), lambdas with captures, functions passed by name and
+# std::back_inserter are concrete; bytes of an input may also be symbolic bit vectors (base64 bit provenance).
 # Whatever the machine does not model raises dtable.Undecidable (exit 2) - it never guesses.  What it does model is
 # executed exactly, so a wrong result / a read outside a buffer / a run that does not end is a concrete counterexample.
 W = 32
@@ -103,10 +141,27 @@ class Stream:
 
 
 class Lam:
-    __slots__ = ("fn",)
+    """a lambda / a function designated by name; caps: the captured variables (decl id -> value or Alias)"""
+    __slots__ = ("fn", "caps")
 
-    def __init__(self, fn):
-        self.fn = fn
+    def __init__(self, fn, caps=None):
+        self.fn, self.caps = fn, caps
+
+
+class Native:
+    """a library function designated by name (std::tolower passed to an algorithm)"""
+    __slots__ = ("name",)
+
+    def __init__(self, name):
+        self.name = name
+
+
+class BackIns:
+    """std::back_inserter(container)"""
+    __slots__ = ("obj",)
+
+    def __init__(self, obj):
+        self.obj = obj
 
 
 class Moved:
@@ -219,6 +274,8 @@ def kind_of_type(ty):
         return "view"
     if t.startswith("std::vector<"):
         return "vec"
+    if t.startswith("tlx::SimpleVector<") or t.startswith("tlx::simple_vector<"):
+        return "svec"
     if t.startswith("std::basic_ostringstream<") or t.startswith("std::basic_stringstream<") or t in ("std::ostringstream", "std::stringstream"):
         return "stream"
     return None
@@ -228,9 +285,12 @@ def vec_elem(ty):
     t = _bare(ty)
     while t.endswith("*"):
         t = _bare(t[:-1])
-    if not t.startswith("std::vector<"):
+    for pre in ("std::vector<", "tlx::SimpleVector<", "tlx::simple_vector<"):
+        if t.startswith(pre):
+            break
+    else:
         return "?"
-    inner = t[len("std::vector<"):].strip()
+    inner = t[len(pre):].strip()
     if inner.startswith("std::basic_string<char") or inner.startswith("std::string"):
         return "str"
     if inner.startswith("tlx::StringView") or inner.startswith("tlx::string_view") or inner.startswith("std::basic_string_view<char") or \
@@ -399,8 +459,13 @@ def cell_of(buf, v):
             return take(v)
         if isinstance(v, Str):
             return Str(v.buf.cells)
-        return v
+        return fresh(v)
     return v
+
+
+def fresh(v):
+    """a string_view is a value: a copy is a new (pointer, length) pair (its members remove_prefix / clear change it in place)"""
+    return View(v.buf, v.off, v.n) if isinstance(v, View) else v
 
 
 def take(v):
@@ -484,6 +549,16 @@ def assign_obj(obj, v):
         else:
             raise Und("assignment of %s to a std::vector" % type(v).__name__)
         return
+    if isinstance(obj, View):
+        v = unmoved(v)
+        if isinstance(v, Str):
+            v = View(v.buf, 0, len(v.buf.cells))
+        elif isinstance(v, Ptr):
+            v = View(v.buf, v.off, len(cstr_cells(v)))
+        if not isinstance(v, View):
+            raise Und("assignment of %s to a string_view" % type(v).__name__)
+        obj.buf, obj.off, obj.n = v.buf, v.off, v.n
+        return
     raise Und("assignment to an object of kind %s" % type(obj).__name__)
 
 
@@ -563,6 +638,17 @@ def find_of(hay, chars, pos, first=True, member=True):
     return NPOS
 
 
+def c_case(name, v):
+    """tolower / toupper of the "C" locale; the argument must be representable as unsigned char or be EOF"""
+    if not -1 <= v <= 255:
+        raise Und("%s(%d): argument not representable as unsigned char" % (name, v))
+    if name == "tolower" and 65 <= v <= 90:
+        return v + 32
+    if name == "toupper" and 97 <= v <= 122:
+        return v - 32
+    return v
+
+
 _PTR_OPS = ("*", "++", "--", "+", "-", "+=", "-=", "[]", "==", "!=", "<", ">", "<=", ">=", "->")
 
 
@@ -579,7 +665,7 @@ class Mach:
             raise Hang("no result after %d evaluation steps" % self.budget)
 
     # ---------------------------------------------------------------- calls
-    def invoke(self, fn, args):
+    def invoke(self, fn, args, caps=None):
         if fn.body is None:
             raise Und("%s has no body in this translation unit" % fn.qname)
         if len(args) != len(fn.params):
@@ -587,7 +673,7 @@ class Mach:
         self.depth += 1
         if self.depth > 40:
             raise Und("call depth")
-        env = {}
+        env = dict(caps) if caps else {}
         for p, a in zip(fn.params, args):
             if a is DEFAULT:
                 raise Und("default argument of %s" % fn.qname)
@@ -596,13 +682,18 @@ class Mach:
             self.exec(fn.body, env)
             return None
         except _Ret as r:
-            return r.v
+            v = r.v
+            return conv(v, fn.d.get("ret")) if isinstance(v, int) and not isinstance(v, bool) else v
         finally:
             self.depth -= 1
+            if caps and any(env.get(d) is not v for d, v in caps.items()):
+                raise Und("%s: a lambda changes a variable it captured by copy" % fn.loc)
 
     def apply(self, f, args):
         if isinstance(f, Lam):
-            return self.invoke(f.fn, args)
+            return self.invoke(f.fn, [fresh(a) for a in args], f.caps)
+        if isinstance(f, Native) and len(args) == 1 and isinstance(args[0], int):
+            return c_case(f.name, args[0])
         raise Und("call of a %s" % type(f).__name__)
 
     def bind_args(self, callee, nodes, env):
@@ -629,7 +720,7 @@ class Mach:
                     c = Vec((), v.elem)
                     c.buf.cells = [cell_of(c.buf, x) for x in v.buf.cells]
                     v = c
-                out.append(v)
+                out.append(fresh(v))
         return out
 
     # ---------------------------------------------------------------- statements
@@ -715,7 +806,7 @@ class Mach:
             raise Und("mutable static local %s" % v.get("name"))
         if init is None:
             kd = kind_of_type(ty)
-            env[v["did"]] = Str() if kd == "str" else View(None, 0, 0) if kd == "view" else Vec((), vec_elem(ty)) if kd == "vec" else \
+            env[v["did"]] = Str() if kd == "str" else View(None, 0, 0) if kd == "view" else Vec((), vec_elem(ty)) if kd in ("vec", "svec") else \
                 Stream() if kd == "stream" else UNINIT
             return
         if "[" in ty and (init["k"] == "InitListExpr" or "bytes" in init):
@@ -732,7 +823,7 @@ class Mach:
         val = self.eval(init, env)
         if isinstance(val, Moved):
             val = take(val)
-        env[v["did"]] = conv(val, ty)
+        env[v["did"]] = fresh(conv(val, ty))
 
     def make_array(self, ty, init, env, name):
         """array object for `T name[N] = {...}` / `= "..."`; constant arrays are tables"""
@@ -926,6 +1017,13 @@ class Mach:
                 if v is UNINIT:
                     raise Und("read of uninitialised %s" % e["ref"].get("name"))
                 return v
+            if e["ref"].get("kind") == "fn":
+                f = self.tu.by_did.get(did)
+                if f is not None and f.body is not None and f.kind == "fn":
+                    return Lam(f)
+                if e["ref"].get("qname") in ("tolower", "toupper", "std::tolower", "std::toupper") and "(int)" in (e.get("ty") or ""):
+                    return Native(e["ref"]["name"])
+                raise Und("function %s used as a value" % e["ref"].get("qname"))
             if e["ref"].get("kind") == "global" and e["ref"].get("qname"):
                 for t in getattr(self.tu, "tables", []):
                     if t.get("qname") == e["ref"]["qname"] and "const" in (t.get("elem_ty") or "").split() and int_type(t.get("elem_ty")):
@@ -984,12 +1082,32 @@ class Mach:
                 return getattr(base, e["member"])
             raise Und("member %s of %s" % (e.get("member"), type(base).__name__))
         if k == "LambdaExpr":
-            if e.get("captures"):
-                raise Und("lambda with captures")
+            caps = {}
+            for c in e.get("captures") or []:
+                did = c.get("id")
+                if did is None or did not in env:
+                    raise Und("lambda capture of %s" % c.get("name"))
+                cur = env[did]
+                if c.get("byref"):
+                    caps[did] = cur if isinstance(cur, (Str, Vec, Stream, Lam, Alias)) else Alias(VarLV(env, did))
+                else:
+                    if isinstance(cur, Alias):
+                        cur = cur.lv.get()
+                    if cur is UNINIT:
+                        raise Und("lambda captures an uninitialised variable")
+                    if isinstance(cur, Str):
+                        cur = Str(cur.buf.cells)
+                    elif isinstance(cur, Vec):
+                        cp = Vec((), cur.elem)
+                        cp.buf.cells = [cell_of(cp.buf, x) for x in cur.buf.cells]
+                        cur = cp
+                    elif not isinstance(cur, (int, Ptr, View, Ref, Lam, Native)):
+                        raise Und("lambda captures a %s by copy" % type(cur).__name__)
+                    caps[did] = fresh(cur)
             f = self.tu.by_did.get(e.get("fn"))
             if f is None:
                 raise Und("lambda body not found")
-            return Lam(f)
+            return Lam(f, caps)
         if k == "DefaultArg":
             return DEFAULT
         if k == "CXXThrowExpr":
@@ -997,6 +1115,8 @@ class Mach:
         if k == "InitListExpr":
             if "[" in (e.get("ty") or ""):
                 return self.make_array(e["ty"], e, env, "(initialiser list)")
+            if int_type(e.get("ty")) and len(kids(e)) <= 1:          # T x{} is value-initialised, T x{v} holds v
+                return conv(self.eval(kids(e)[0], env), e.get("ty")) if kids(e) else 0
             raise Und("initialiser list of type %s" % e.get("ty"))
         if "callee" in e:
             r = self.call(e, env)
@@ -1044,8 +1164,10 @@ class Mach:
                 if isinstance(lv, ObjLV):
                     return Ref(lv.obj)
             v = self.eval(a, env)
-            if isinstance(v, (Str, Vec, Stream)):
+            if isinstance(v, (Str, Vec, Stream, View)):
                 return Ref(v)
+            if isinstance(v, (Lam, Native)):
+                return v
             raise Und("address of %s" % type(v).__name__)
         if op in ("++", "--"):
             lv = self.lval(a, env)
@@ -1083,7 +1205,7 @@ class Mach:
                 return lv.obj
             if isinstance(v, Moved):
                 v = take(v)
-            v = conv(v, l.get("ty"))
+            v = fresh(conv(v, l.get("ty")))
             lv.set(v)
             return v
         a, b = self.eval(l, env), self.eval(r, env)
@@ -1233,7 +1355,30 @@ class Mach:
                 r = Vec((), vs[0].elem)
                 r.buf.cells = [cell_of(r.buf, x) for x in vs[0].buf.cells]
                 return r
+            if len(vs) in (1, 2) and isinstance(vs[0], int) and not isinstance(vs[0], bool) and el in ("int", "str", "view"):
+                if vs[0] > 1 << 12:
+                    raise MemFault("a std::vector of %d elements is requested" % vs[0])
+                r = Vec((), el)
+                r.buf.cells = [cell_of(r.buf, self.make_elem(r, [unmoved(x) for x in vs[1:]]) if el != "int" or len(vs) == 2 else 0) for _ in range(vs[0])]
+                return r
             raise Und("std::vector constructor with %d argument(s)" % len(vs))
+        if kd == "svec":
+            vs = self.vals(args, env)
+            el = vec_elem(e.get("ty"))
+            if el != "int" or "SimpleVectorMode::Normal" not in (e.get("ty") or "") and "," in (e.get("ty") or ""):
+                raise Und("construction of %s" % e.get("ty"))
+            if not vs:
+                return Vec((), el)
+            if len(vs) == 1 and isinstance(vs[0], Moved) and isinstance(vs[0].obj, Vec):
+                return take(vs[0])
+            if len(vs) == 1 and isinstance(vs[0], int) and not isinstance(vs[0], bool):
+                if vs[0] > 1 << 12:
+                    raise MemFault("a simple_vector of %d elements is requested" % vs[0])
+                r = Vec((), el)
+                r.buf.cells = [UNINIT] * vs[0]          # new T[n]: the elements of an integer type are not initialised
+                r.buf.what = "tlx::simple_vector"
+                return r
+            raise Und("simple_vector constructor (%s)" % ", ".join(type(v).__name__ for v in vs))
         if kd == "stream":
             if args and any(a is not None and a["k"] != "DefaultArg" for a in args):
                 raise Und("stream constructor with arguments")
@@ -1282,7 +1427,7 @@ class Mach:
         if len(vs) == 1:
             a = unmoved(a)
             if isinstance(a, View):
-                return a
+                return fresh(a)
             if isinstance(a, Str):
                 return View(a.buf, 0, len(a.buf.cells))
             if isinstance(a, Ptr):
@@ -1394,6 +1539,15 @@ class Mach:
             if pos > n:
                 raise Thrown()
             return Str(cells[pos:pos + min(cnt, n)])
+        if name == "erase" and vs and all(isinstance(v, Ptr) for v in vs) and len(vs) <= 2:
+            if any(v.buf is not s.buf for v in vs):
+                raise Und("std::string::erase with an iterator into another object")
+            a = vs[0].off
+            b = vs[1].off if len(vs) == 2 else a + 1
+            if not 0 <= a <= b <= n or (len(vs) == 1 and a >= n):
+                raise MemFault("std::string::erase of the iterator range [%d, %d) in a string of %d character(s)" % (a, b, n))
+            del cells[a:b]
+            return Ptr(s.buf, a)
         if name == "erase" and all(isinstance(v, int) for v in vs):
             pos = vs[0] if vs else 0
             cnt = vs[1] if len(vs) > 1 else NPOS
@@ -1410,6 +1564,14 @@ class Mach:
                 raise Hang("a string grows beyond %d characters" % (1 << 16))
             cells[pos:pos + min(cnt, n)] = new
             return s
+        if name == "insert" and len(vs) >= 2 and isinstance(vs[0], Ptr):
+            if vs[0].buf is not s.buf or not 0 <= vs[0].off <= n:
+                raise Und("std::string::insert at an iterator that is not into the string")
+            new = [cell_of(s.buf, c) for c in self.seq_arg(vs[1:], "std::string::insert")]
+            if n + len(new) > 1 << 16:
+                raise Hang("a string grows beyond %d characters" % (1 << 16))
+            cells[vs[0].off:vs[0].off] = new
+            return Ptr(s.buf, vs[0].off)
         if name == "insert" and len(vs) >= 2 and isinstance(vs[0], int):
             pos = vs[0]
             if pos > n:
@@ -1419,13 +1581,16 @@ class Mach:
                 raise Hang("a string grows beyond %d characters" % (1 << 16))
             cells[pos:pos] = new
             return s
-        if name == "compare" and len(vs) == 1:
-            o = self.seq_arg(vs, "compare")
-            a, b = bytes(all_int(cells)), bytes(all_int(o))
-            return (a > b) - (a < b)
+        if name == "compare":
+            return self.compare(cells, vs)
+        if name in ("starts_with", "ends_with") and len(vs) == 1:
+            return self.affix(cells, name, vs[0])
         if name == "operator=" and len(vs) == 1:
             assign_obj(s, vs[0])
             return s
+        if name == "swap" and len(vs) == 1 and isinstance(vs[0], Str):
+            s.buf, vs[0].buf = vs[0].buf, s.buf
+            return None
         raise Und("std::string::%s with (%s)" % (name, ", ".join(type(v).__name__ for v in vs)))
 
     def find_family(self, cells, name, vs):
@@ -1484,10 +1649,50 @@ class Mach:
             return self.find_family(view_cells(v), name, vs)
         if name in ("to_string", "str") and not vs:
             return Str(view_cells(v))
-        if name == "compare" and len(vs) == 1:
-            a, b = bytes(all_int(view_cells(v))), bytes(all_int(self.seq_arg(vs, "compare")))
-            return (a > b) - (a < b)
+        if name == "compare":
+            return self.compare(view_cells(v), vs)
+        if name == "clear" and not vs:
+            v.n = 0
+            return None
+        if name in ("remove_prefix", "remove_suffix") and len(vs) == 1 and isinstance(vs[0], int):
+            if vs[0] > v.n:
+                raise Und("string_view::%s(%d) on a view of %d byte(s)" % (name, vs[0], v.n))
+            if name == "remove_prefix":
+                v.off += vs[0]
+            v.n -= vs[0]
+            return None
+        if name in ("starts_with", "ends_with") and len(vs) == 1:
+            return self.affix(view_cells(v), name, vs[0])
         raise Und("string_view::%s with (%s)" % (name, ", ".join(type(x).__name__ for x in vs)))
+
+    def compare(self, cells, vs):
+        """basic_string / string_view ::compare: (x) | (pos1, n1, x) | (pos1, n1, x, pos2, n2) | (pos1, n1, ptr, n2)"""
+        if len(vs) >= 3 and isinstance(vs[0], int) and isinstance(vs[1], int):
+            if vs[0] > len(cells):
+                raise Thrown()
+            cells = cells[vs[0]:vs[0] + min(vs[1], len(cells))]
+            vs = vs[2:]
+        elif len(vs) != 1:
+            raise Und("compare with %d argument(s)" % len(vs))
+        if len(vs) == 3 and isinstance(unmoved(vs[0]), (Str, View)) and isinstance(vs[1], int) and isinstance(vs[2], int):
+            o = self.seq_arg(vs[:1], "compare")
+            if vs[1] > len(o):
+                raise Thrown()
+            o = o[vs[1]:vs[1] + min(vs[2], len(o))]
+        elif len(vs) in (1, 2):
+            o = self.seq_arg(vs, "compare")
+        else:
+            raise Und("compare argument shape")
+        a, b = bytes(all_int(cells)), bytes(all_int(o))
+        return (a > b) - (a < b)
+
+    def affix(self, cells, name, x):
+        x = unmoved(x)
+        o = all_int(self.seq_arg([x & 0xFF if isinstance(x, int) else x], name))
+        cells = all_int(cells)
+        if len(o) > len(cells):
+            return 0
+        return int((cells[:len(o)] if name == "starts_with" else cells[len(cells) - len(o):]) == o)
 
     # ---- std::vector
     def vec_method(self, vec, name, rest, env, e):
@@ -1540,6 +1745,9 @@ class Mach:
         if name == "operator=" and len(vs) == 1:
             assign_obj(vec, vs[0])
             return vec
+        if name == "swap" and len(vs) == 1 and isinstance(vs[0], Vec) and vs[0].elem == vec.elem:
+            vec.buf, vs[0].buf = vs[0].buf, vec.buf          # the storage changes hands: iterators follow it
+            return None
         raise Und("std::vector::%s with (%s)" % (name, ", ".join(type(x).__name__ for x in vs)))
 
     # ---- overloaded operators
@@ -1559,7 +1767,7 @@ class Mach:
         if isinstance(first, Ref) and op in ("->", "*"):
             return first.obj
         if isinstance(first, Lam) and op == "()":
-            return self.invoke(first.fn, self.bind_args(first.fn, args[1:], env))
+            return self.invoke(first.fn, self.bind_args(first.fn, args[1:], env), first.caps)
         if isinstance(first, Ptr) and op in _PTR_OPS:
             if op == "*" and len(args) == 1:
                 return CellLV(first.buf, first.off, e.get("ty"))
@@ -1581,10 +1789,13 @@ class Mach:
             if isinstance(unmoved(b), (Str, View)):         # "literal" + std::string, C string == std::string
                 return self.string_binop(op, first, unmoved(b), c)
             return self.ptr_arith(op, first, b)
+        if op == "=" and len(args) == 2 and isinstance(first, View):
+            assign_obj(first, self.eval(args[1], env))          # the string_view object itself changes (pointers to it stay valid)
+            return lv0
         if op == "=" and len(args) == 2 and isinstance(lv0, (VarLV, CellLV)):
-            v = self.eval(args[1], env)
+            v = unmoved(self.eval(args[1], env))
             if isinstance(v, (Ptr, int, View)):
-                lv0.set(v)
+                lv0.set(fresh(v))
                 return lv0
             raise Und("operator= of %s" % type(v).__name__)
         if isinstance(first, int) and not isinstance(first, bool) and len(args) == 2 and op in ("+", "==", "!=", "<", ">", "<=", ">="):
@@ -1665,6 +1876,31 @@ class Mach:
                 if name == "toupper" and 97 <= v <= 122:
                     return v - 32
                 return v
+        if name == "swap" and len(args) == 2:
+            la, lb = self.lval(args[0], env), self.lval(args[1], env)
+            a, b = la.get(), lb.get()
+            if a is UNINIT or b is UNINIT:
+                raise Und("std::swap of an uninitialised variable")
+            if type(a) is not type(b):
+                raise Und("std::swap of %s and %s" % (type(a).__name__, type(b).__name__))
+            if isinstance(a, (Str, Vec)):
+                if isinstance(a, Vec) and a.elem != b.elem:
+                    raise Und("std::swap of vectors of different element types")
+                a.buf, b.buf = b.buf, a.buf          # the storage changes hands: iterators and views follow it
+                return None
+            if isinstance(a, View):
+                (a.buf, a.off, a.n), (b.buf, b.off, b.n) = (b.buf, b.off, b.n), (a.buf, a.off, a.n)
+                return None
+            if isinstance(a, (int, Ptr)):
+                la.set(b)
+                lb.set(a)
+                return None
+            raise Und("std::swap of %s" % type(a).__name__)
+        if name == "back_inserter" and len(args) == 1:
+            o = self.eval(args[0], env)
+            if isinstance(o, (Str, Vec)):
+                return BackIns(o)
+            raise Und("std::back_inserter of %s" % type(o).__name__)
         vs = self.vals(args, env)
         vs = [unmoved(v) for v in vs]
         if name in ("min", "max") and len(vs) == 2:
@@ -1687,7 +1923,8 @@ class Mach:
             o = vs[0]
             return (self.str_method if isinstance(o, Str) else self.view_method if isinstance(o, View) else self.vec_method)(o, name, [], env, e)
         if name in ("equal", "lexicographical_compare", "find", "find_if", "find_if_not", "search", "any_of", "all_of", "none_of", "count", "count_if",
-                    "mismatch", "memcmp", "strncmp", "strcmp", "memchr", "copy", "fill", "strcasecmp", "strncasecmp"):
+                    "mismatch", "memcmp", "strncmp", "strcmp", "memchr", "copy", "fill", "strcasecmp", "strncasecmp", "transform", "remove",
+                    "remove_if", "copy_if", "remove_copy", "remove_copy_if", "for_each", "strchr", "fill_n", "copy_n", "reverse"):
             return self.algorithm(name, vs)
         raise Und("call of %s with (%s)" % (q, ", ".join(type(v).__name__ for v in vs)))
 
@@ -1814,11 +2051,101 @@ class Mach:
                 if load(vs[0].buf, vs[0].off + i) == (vs[1] & 0xFF):
                     return Ptr(vs[0].buf, vs[0].off + i)
             return Ptr(None, 0)
-        if name == "copy" and len(vs) == 3 and all(P(x) for x in vs):
-            cells = range_cells(vs[0], vs[1])
-            for i, c in enumerate(cells):
+        if name in ("copy", "copy_if", "remove_copy", "remove_copy_if", "transform") and len(vs) >= 3 and P(vs[0]) and P(vs[1]):
+            # one output per (selected) input element, written through an iterator or appended through a back_inserter
+            src = list(range_cells(vs[0], vs[1]))
+            rest = list(vs[2:])
+            src2 = None
+            if name == "transform" and len(rest) == 3:
+                if not P(rest[0]):
+                    raise Und("std::transform argument shape")
+                src2 = rest.pop(0)
+            out = rest.pop(0)
+            fn = rest.pop(0) if rest else None
+            if rest or (fn is None) != (name == "copy") or not (P(out) or isinstance(out, BackIns)):
+                raise Und("std::%s argument shape" % name)
+            if vs[0].buf.kind == "objs":
+                raise Und("std::%s over a range of objects" % name)
+            signed = vs[0].buf.kind == "bytes"
+            if P(out) and out.buf is vs[0].buf and vs[0].off < out.off < vs[1].off:
+                raise Und("std::%s into the middle of its own input range" % name)
+            k = 0
+            for i in range(len(src)):
+                self.tick()
+                c = load(vs[0].buf, vs[0].off + i)          # read when the element is reached (the output may be the input range itself)
+                x = c - 256 if signed and isinstance(c, int) and c >= 128 else c
+                if name == "copy":
+                    y = c
+                elif name == "transform":
+                    y = self.apply(fn, [x] if src2 is None else [x, self.rd(Ptr(src2.buf, src2.off + i))])
+                    if not isinstance(y, int):
+                        raise Und("std::transform yields a %s" % type(y).__name__)
+                else:
+                    hit = self.same(x, fn) if name == "remove_copy" else truthy(self.apply(fn, [x]))
+                    if hit != (name == "copy_if"):
+                        continue
+                    y = c
+                if P(out):
+                    store(out.buf, out.off + k, y)
+                elif isinstance(out.obj, Str):
+                    self.append(out.obj, [y])
+                elif out.obj.elem == "int":
+                    out.obj.buf.cells.append(y)
+                else:
+                    raise Und("back_inserter into a vector of %s" % out.obj.elem)
+                k += 1
+            return Ptr(out.buf, out.off + k) if P(out) else out
+        if name in ("remove", "remove_if") and len(vs) == 3 and P(vs[0]) and P(vs[1]):
+            src = list(range_cells(vs[0], vs[1]))
+            if vs[0].buf.kind != "bytes":
+                raise Und("std::%s over a range that is not characters" % name)
+            k = 0
+            for c in src:
+                self.tick()
+                x = c - 256 if isinstance(c, int) and c >= 128 else c
+                if self.same(x, vs[2]) if name == "remove" else truthy(self.apply(vs[2], [x])):
+                    continue
+                store(vs[0].buf, vs[0].off + k, c)       # the tail [result, last) keeps its (unspecified, here: old) values
+                k += 1
+            return Ptr(vs[0].buf, vs[0].off + k)
+        if name == "for_each" and len(vs) == 3 and P(vs[0]) and P(vs[1]) and isinstance(vs[2], Lam):
+            if vs[0].buf is not vs[1].buf or vs[0].buf is None or vs[0].buf.kind == "objs":
+                raise Und("std::for_each argument shape")
+            pty = (vs[2].fn.params[0].get("ty") or "").strip() if len(vs[2].fn.params) == 1 else None
+            if pty is None:
+                raise Und("std::for_each with a function of %d parameters" % len(vs[2].fn.params))
+            for i in range(vs[0].off, vs[1].off):
+                self.tick()
+                lv = CellLV(vs[0].buf, i, pty)
+                self.invoke(vs[2].fn, [Alias(lv) if pty.endswith("&") and not pty.startswith("const ") else lv.get()], vs[2].caps)
+            return vs[2]
+        if name == "strchr" and len(vs) == 2 and P(vs[0]) and isinstance(vs[1], int):
+            i = vs[0].off
+            while True:
+                self.tick()
+                c = load(vs[0].buf, i)
+                if not isinstance(c, int):
+                    raise Und("symbolic byte in a C string")
+                if c == (vs[1] & 0xFF):
+                    return Ptr(vs[0].buf, i)          # the terminator is part of the string: strchr(s, 0) finds it
+                if c == 0:
+                    return Ptr(None, 0)
+                i += 1
+        if name in ("fill_n", "copy_n") and len(vs) == 3 and P(vs[0]) and isinstance(vs[1], int):
+            if name == "fill_n":
+                for i in range(vs[1]):
+                    store(vs[0].buf, vs[0].off + i, vs[2])
+                return Ptr(vs[0].buf, vs[0].off + max(vs[1], 0))
+            if not P(vs[2]):
+                raise Und("std::copy_n argument shape")
+            for i, c in enumerate(ptr_n_cells(vs[0], vs[1])):
                 store(vs[2].buf, vs[2].off + i, c)
-            return Ptr(vs[2].buf, vs[2].off + len(cells))
+            return Ptr(vs[2].buf, vs[2].off + vs[1])
+        if name == "reverse" and len(vs) == 2 and P(vs[0]) and P(vs[1]):
+            cells = range_cells(vs[0], vs[1])
+            for i, c in enumerate(reversed(cells)):
+                store(vs[0].buf, vs[0].off + i, c)
+            return None
         if name == "fill" and len(vs) == 3 and P(vs[0]) and P(vs[1]):
             for i in range(vs[0].off, vs[1].off):
                 store(vs[0].buf, i, vs[2])
@@ -2405,6 +2732,426 @@ def check_replace(ck, tu):
     return n
 
 
+# ------------------------------------------------------------------ pure helpers against their documented definition
+# Every overload of trim / trim_left / trim_right, starts_with(_icase) / ends_with(_icase) / contains, to_lower / to_upper,
+# erase_all, replace_first (and replace_all on byte alphabets), pad, levenshtein(_icase) and join is evaluated on a complete
+# small family of inputs and compared with a direct Python implementation of what its doc comment says.  The alphabets contain
+# a NUL byte and a byte >= 0x80 wherever the function takes arbitrary bytes; drop sets / needles / glue passed as string_view
+# are also given as views into the middle of a longer buffer (not NUL-terminated: a read behind the view's end yields the next
+# byte of the buffer, a read behind the buffer is a fault of the run).
+HI = 0xE9
+DEFAULT_DROP = b" \r\n\t"
+
+
+def inside(bs, before=b"", after=b""):
+    """a string_view of bs that lies in the middle of a longer NUL-terminated buffer"""
+    return View(Buf(list(before) + list(bs) + list(after), "buffer around a string_view", zterm=True), len(before), len(bs))
+
+
+def hx(b):
+    return "".join(chr(c) if 33 <= c < 127 and c != 92 else "\\x%02x" % c for c in b)
+
+
+def observed(tu, fn, args, also=None, budget=200000):
+    """outcome of one run, the result made concrete; `also`: the object the function works on in place (must hold the same bytes)"""
+    st, v, _ = attempt(tu, fn, args, budget)
+    if st != "ok":
+        return ("throw",) if st == "throw" else (st, v)
+    try:
+        r = concrete(v)
+        if also is not None:
+            a = concrete(also)
+            if a != r:
+                return ("ok", r, "but the object worked on in place holds %r" % (a,))
+        return ("ok", r)
+    except MemFault as f:
+        return ("fault", "the result " + str(f))
+
+
+def undecided(msg):
+    raise dtable.Undecidable(msg)
+
+
+def shown(o):
+    return show(o) + (" " + o[2] if len(o) > 2 else "")
+
+
+def decide(ck, rule, tu, fn, tag, cases, detail):
+    """cases: iterable of (describe: tuple for the message, args, in-place object or None, expected value)"""
+    n = 0
+    for desc, args, also, want in cases:
+        o = located(fn, lambda: observed(tu, fn, args, also))
+        if o != ("ok", want):
+            if o[0] == "ok" and isinstance(o[1], bytes) and isinstance(want, bytes) and len(want) > 32:
+                i = ([j for j in range(min(len(o[1]), len(want))) if o[1][j] != want[j]] + [min(len(o[1]), len(want))])[0]
+                got = "returns %d byte(s), byte %d is %s" % (len(o[1]), i, "%#04x" % o[1][i] if i < len(o[1]) else "missing") + (" " + o[2] if len(o) > 2 else "")
+                exp = "%d byte(s), byte %d is %s" % (len(want), i, "%#04x" % want[i] if i < len(want) else "missing")
+            else:
+                got, exp = shown(o), "%r" % (want,)
+            ck.violation(rule, fn.qname, tag, "%s: %s, the documented result is %s" % (desc[0] % tuple(desc[1:]), got, exp), fn.loc)
+            return
+        n += 1
+    ck.ok(rule, tag, detail % n)
+
+
+def family(ck, rule, tu, qname, table, detail):
+    """table: {signature: case generator}; every overload of qname in the translation unit must be one of them, each exactly once"""
+    present = overloads(tu, qname)
+    for f in present:
+        if sig_of(f) not in table:
+            ck.guarded(lambda f=f: undecided("%s: overload %s(%s) has no input family in rule %s" % (f.loc, qname, ", ".join(sig_of(f)), rule)))
+    for sg, gen in table.items():
+        def one(sg=sg, gen=gen):
+            fn = the_overload(tu, qname, sg)
+            decide(ck, rule, tu, fn, "%s(%s)" % (qname.split("::")[-1], ",".join(sg)), gen(fn), detail)
+        ck.guarded(one)
+
+
+# ---- trim
+def ref_trim(which, s, drop):
+    i, j = 0, len(s)
+    if which != "trim_right":
+        while i < j and s[i] in drop:
+            i += 1
+    if which != "trim_left":
+        while j > i and s[j - 1] in drop:
+            j -= 1
+    return bytes(s[i:j])
+
+
+def edge_strings():
+    """strings whose ends carry every combination of droppable / other bytes: all strings over {space, 'x', NUL} up to length 3, over
+    {space, 'x'} of length 4, and each candidate byte alone / left / right / on both sides of a letter"""
+    out = words(bytes([32, 120, 0]), 3) + [bytes(t) for t in itertools.product(bytes([32, 120]), repeat=4)]
+    for c in (32, 13, 10, 9, 11, 12, 0, HI, 0xA0, 97, 98, 120):
+        out += [bytes([c]), bytes([c, 120]), bytes([120, c]), bytes([c, 120, c]), bytes([c, c, 120, 120, c, c])]
+    seen = set()
+    return [s for s in out if not (s in seen or seen.add(s))]
+
+
+def drop_views():
+    """(name, bytes of the set, constructor of the view)"""
+    return [("{space,0xE9} as a view into the middle of \"b \\xe9a\"", bytes([32, HI]), lambda: inside(bytes([32, HI]), b"b", b"a")),
+            ("{space,NUL,tab}", bytes([32, 0, 9]), lambda: inside(bytes([32, 0, 9]))),
+            ("{NUL,space}", bytes([0, 32]), lambda: inside(bytes([0, 32]))),
+            ("the empty view into the middle of \"x \"", b"", lambda: inside(b"", b"x", b" ")),
+            ("\" \\r\\n\\t\" (not NUL-terminated)", DEFAULT_DROP, lambda: view_of(DEFAULT_DROP))]
+
+
+DROP_CHARS = (32, 0, HI, 120)
+
+
+def check_trim(ck, tu):
+    strs = edge_strings()
+
+    def gen(which, subject, dropkind):
+        def cases(fn):
+            if dropkind == "default":
+                drops = [("(default drop set)", DEFAULT_DROP, None)]
+            elif dropkind == "char":
+                drops = [("drop=%#04x" % c, bytes([c]), (lambda c=c: c)) for c in DROP_CHARS]
+            else:
+                drops = [("drop=" + nm, bs, mk) for nm, bs, mk in drop_views()]
+            for nm, dset, mk in drops:
+                for s in strs:
+                    obj = Str(s) if subject == "ref:str" else view_of(s)
+                    args = [Ref(obj) if subject.startswith("ref:") else obj] + ([mk()] if mk else [])
+                    yield ("str=\"%s\" %s", hx(s), nm), args, (obj if subject.startswith("ref:") else None), ref_trim(which, s, dset)
+        return cases
+    for which in ("trim", "trim_left", "trim_right"):
+        table = {}
+        for subject in ("ref:str", "ref:view", "view"):
+            table[(subject,)] = gen(which, subject, "default")
+            table[(subject, "view")] = gen(which, subject, "view")
+            table[(subject, "char")] = gen(which, subject, "char")
+        family(ck, "TRIM-SEMANTICS", tu, "tlx::" + which, table,
+               "%d runs (strings with every end shape incl. NUL / 0xE9 / all whitespace bytes x drop sets incl. NUL and non-terminated views): "
+               "exactly the bytes of the drop set are removed from " + {"trim": "both ends", "trim_left": "the left end", "trim_right": "the right end"}[which])
+
+
+# ---- starts_with / ends_with / contains
+def affix_pairs(icase, nul_ok):
+    """(str, match) pairs: all pairs of words over {x,y} (str up to length 3, match up to length 3) with x,y instantiated by letters,
+    letter / non-letter pairs 0x20 apart, a high byte pair 0x20 apart and (views only) NUL"""
+    tmpl = words(b"xy", 3)
+    inst = [(97, 98)]
+    if icase:
+        inst += [(97, 65), (90, 122), (64, 96), (91, 123), (0xC9, HI)]
+    else:
+        inst += [(97, HI)]
+    if nul_ok:
+        inst += [(0, 32)] if icase else [(0, 97)]
+    seen = set()
+    for x, y in inst:
+        tr = {120: x, 121: y}
+        for s in tmpl:
+            for m in tmpl:
+                p = (bytes(tr[c] for c in s), bytes(tr[c] for c in m))
+                if p not in seen:
+                    seen.add(p)
+                    yield p
+
+
+def check_affix(ck, tu_sw, tu_ew, tu_ct):
+    def gen(kind, icase, sg):
+        def cases(fn):
+            for s, m in affix_pairs(icase, True):
+                if (sg[0] == "ptr" and 0 in s) or (sg[1] == "ptr" and 0 in m):
+                    continue
+                a, b = (lower(s), lower(m)) if icase else (s, m)
+                want = int(a.startswith(b) if kind == "starts" else a.endswith(b) if kind == "ends" else b in a)
+                args = [cstr_of(x) if t == "ptr" else view_of(x) for x, t in ((s, sg[0]), (m, sg[1]))]
+                yield ("str=\"%s\" match=\"%s\"", hx(s), hx(m)), args, None, want
+        return cases
+    vv = ("view", "view")
+    four = (("ptr", "ptr"), ("ptr", "view"), ("view", "ptr"), vv)
+    what = "%d (str, match) pairs up to length 3 (letters, case pairs, non-letters 0x20 apart, 0xC9/0xE9, NUL): true exactly when match is a "
+    family(ck, "AFFIX-SEMANTICS", tu_sw, "tlx::starts_with", {vv: gen("starts", False, vv)}, what + "prefix of str; no read outside either string")
+    family(ck, "AFFIX-SEMANTICS", tu_sw, "tlx::starts_with_icase", {vv: gen("starts", True, vv)}, what + "prefix of str up to ASCII case")
+    family(ck, "AFFIX-SEMANTICS", tu_ew, "tlx::ends_with", {sg: gen("ends", False, sg) for sg in four}, what + "suffix of str; no read outside either string")
+    family(ck, "AFFIX-SEMANTICS", tu_ew, "tlx::ends_with_icase", {sg: gen("ends", True, sg) for sg in four}, what + "suffix of str up to ASCII case")
+
+    def gen_char(fn):
+        for s in words(bytes([97, 0, HI]), 3):
+            for c in (97, 0, HI, 98, 0x69):
+                yield ("str=\"%s\" ch=%#04x", hx(s), c), [view_of(s), c], None, int(c in s)
+    family(ck, "AFFIX-SEMANTICS", tu_ct, "tlx::contains", {vv: gen("contains", False, vv), ("view", "char"): gen_char},
+           "%d inputs (incl. NUL / 0xE9 / the empty pattern): true exactly when the pattern occurs in str")
+
+
+# ---- to_lower / to_upper
+def upper(bs):
+    return bytes(c - 32 if 97 <= c <= 122 else c for c in bs)
+
+
+def check_case(ck, tu, name):
+    mapper = lower if name == "to_lower" else upper
+    every = bytes(range(256))
+    texts = [b"", b"A", b"z", b"aZ\x00Az", every, every[::-1]]
+
+    def gen_char(fn):
+        for c in range(256):
+            yield ("ch=%#04x", c), [c], None, conv(mapper(bytes([c]))[0], "char")
+
+    def name_of(s):
+        return "str=\"%s\"" % hx(s) if len(s) < 32 else "str=the 256 byte values in %s order" % ("ascending" if s[0] == 0 else "descending")
+
+    def gen_str(fn):
+        for s in texts:
+            obj = Str(s)
+            yield ("%s", name_of(s)), [Ref(obj)], obj, mapper(s)
+
+    def gen_view(fn):
+        for s in texts:
+            yield ("%s", name_of(s)), [view_of(s)], None, mapper(s)
+            yield ("%s as a view into the middle of a longer buffer", name_of(s)), [inside(s, b"Qq", b"Qq")], None, mapper(s)
+    family(ck, "CASE-MAP", tu, "tlx::" + name, {("char",): gen_char, ("ref:str",): gen_str, ("view",): gen_view},
+           "%d inputs covering all 256 byte values: exactly the 26 ASCII letters of the other case are mapped, every other byte (NUL, @[`{, 0x80..0xFF) is kept, "
+           "length and order are kept")
+
+
+# ---- erase_all
+def check_erase_all(ck, tu):
+    strs = words(bytes([120, 32, 0]), 4) + [bytes([c, 120, c, c, 120]) for c in (9, 10, 13, HI, 97, 98)]
+
+    def gen(subject, dropkind):
+        def cases(fn):
+            drops = [("drop=%#04x" % c, bytes([c]), (lambda c=c: c)) for c in DROP_CHARS] if dropkind == "char" else \
+                [("drop=" + nm, bs, mk) for nm, bs, mk in drop_views()]
+            for nm, dset, mk in drops:
+                for s in strs:
+                    obj = Str(s) if subject == "ref:str" else view_of(s)
+                    yield ("str=\"%s\" %s", hx(s), nm), [Ref(obj) if subject == "ref:str" else obj, mk()], (obj if subject == "ref:str" else None), \
+                        bytes(c for c in s if c not in dset)
+        return cases
+    family(ck, "ERASE-ALL", tu, "tlx::erase_all", {(sb, dk): gen(sb, dk) for sb in ("ref:str", "view") for dk in ("char", "view")},
+           "%d runs (all strings over {x, space, NUL} up to length 4 and strings with tab / CR / LF / 0xE9 x drop sets incl. NUL and non-terminated views): "
+           "the result is the string without the bytes of the drop set, everything else in order")
+
+
+# ---- replace_first / replace_all on byte alphabets
+def check_replace_bytes(ck, tu):
+    ab = words(b"ab", 4)
+    raw = words(bytes([97, 0, HI]), 3)
+    needles = [(b"a", lambda: view_of(b"a")), (b"aa", lambda: view_of(b"aa")), (b"ab", lambda: view_of(b"ab")), (b"ba", lambda: view_of(b"ba"))]
+    insteads = [(b"", lambda: view_of(b"")), (b"a", lambda: view_of(b"a")), (b"b", lambda: view_of(b"b")), (b"ab", lambda: view_of(b"ab")), (b"bab", lambda: view_of(b"bab"))]
+    raw_needles = [(b"\x00", lambda: inside(b"\x00")), (b"a\x00", lambda: inside(b"a\x00")), (bytes([HI]), lambda: view_of(bytes([HI]))),
+                   (b"a", lambda: inside(b"a", b"x", bytes([HI, 97])))]
+    raw_insteads = [(b"", lambda: inside(b"", b"x", b"y")), (b"\x00", lambda: inside(b"\x00")), (bytes([HI, 0]), lambda: inside(bytes([HI, 0]))),
+                    (b"p", lambda: inside(b"p", b"", b"q"))]
+
+    def gen(first, subject, chars):
+        def cases(fn):
+            if chars:
+                groups = [(ab, [(b"a", b"b"), (b"a", b"a"), (b"b", b"a")]), (raw, [(b"\x00", b"a"), (b"a", b"\x00"), (bytes([HI]), b"\x00"), (b"a", bytes([HI]))])]
+                groups = [(ss, [((nd, (lambda nd=nd: nd[0])), (ins, (lambda ins=ins: ins[0]))) for nd, ins in prs]) for ss, prs in groups]
+            else:
+                groups = [(ab if first else [], [(nd, ins) for nd in needles for ins in insteads]), (raw, [(nd, ins) for nd in raw_needles for ins in raw_insteads])]
+            for ss, prs in groups:
+                for (nd, mknd), (ins, mkins) in prs:
+                    for s in ss:
+                        obj = Str(s) if subject == "ref:str" else view_of(s)
+                        yield ("str=\"%s\" needle=\"%s\" instead=\"%s\"", hx(s), hx(nd), hx(ins)), [Ref(obj) if subject == "ref:str" else obj, mknd(), mkins()], \
+                            (obj if subject == "ref:str" else None), (s.replace(nd, ins, 1) if first else s.replace(nd, ins))
+        return cases
+    shapes = [(sb, k, k) for sb in ("ref:str", "view") for k in ("view", "char")]
+    family(ck, "REPLACE-FIRST", tu, "tlx::replace_first", {sg: gen(True, sg[0], sg[1] == "char") for sg in shapes},
+           "%d runs (all strings over {a,b} up to length 4 x needles x replacements incl. the empty one; strings over {a, NUL, 0xE9} x needles / replacements with NUL, "
+           "0xE9 and non-terminated views): only the leftmost occurrence is replaced, nothing else changes")
+    family(ck, "REPLACE-BYTES", tu, "tlx::replace_all", {sg: gen(False, sg[0], sg[1] == "char") for sg in shapes},
+           "%d runs (strings over {a, NUL, 0xE9} up to length 3 x needles / replacements with NUL, 0xE9 and non-terminated views): equals the left-to-right "
+           "non-overlapping replacement")
+
+
+# ---- pad
+def check_pad(ck, tu):
+    def gen(fn):
+        for s in words(bytes([97, 0, HI]), 3):
+            for n in range(6):
+                for p in (32, 0, HI, 120):
+                    yield ("str=\"%s\" (a view followed by \"ZZ\") len=%d pad_char=%#04x", hx(s), n, p), [inside(s, b"Y", b"ZZ"), n, p], None, (s + bytes([p]) * n)[:n]
+    family(ck, "PAD", tu, "tlx::pad", {("view", "int", "char"): gen},
+           "%d runs (strings over {a, NUL, 0xE9} up to length 3 x len 0..5 x four pad characters): the result has exactly len characters, the string's first "
+           "characters followed by pad characters on the right")
+
+
+# ---- levenshtein
+def ref_lev(a, b):
+    row = list(range(len(b) + 1))
+    for i in range(1, len(a) + 1):
+        new = [i]
+        for j in range(1, len(b) + 1):
+            new.append(min(new[j - 1] + 1, row[j] + 1, row[j - 1] + (a[i - 1] != b[j - 1])))
+        row = new
+    return row[len(b)]
+
+
+def check_levenshtein(ck, tu):
+    def gen(icase, kind):
+        def cases(fn):
+            ws = words(b"ab", 3) + [b"abab", b"baba", b"aabb"]
+            pairs = [(a, b) for a in ws for b in ws]
+            extra = words(bytes([97, 65, 98]), 2) if icase else words(bytes([97, HI]), 2)
+            pairs += [(a, b) for a in extra for b in extra]
+            pairs += [(bytes(x), bytes(y)) for x, y in (([64], [96]), ([91, 97], [123, 65]), ([0xC9], [HI]), ([90, 97], [122]), ([97, 98, 97, 98], [98, 65, 66]))]
+            if kind == "view":
+                z = words(bytes([0, 97]), 2)
+                pairs += [(a, b) for a in z for b in z]
+            for a, b in pairs:
+                want = ref_lev(lower(a), lower(b)) if icase else ref_lev(a, b)
+                if kind == "ptr":
+                    yield ("a=\"%s\" b=\"%s\"", hx(a), hx(b)), [cstr_of(a), cstr_of(b)], None, want
+                else:
+                    yield ("a=\"%s\" b=\"%s\" (views into the middle of longer buffers)", hx(a), hx(b)), [inside(a, b"b", b"ab"), inside(b, b"a", b"ba")], None, want
+        return cases
+    detail = "%d pairs (all pairs of strings over {a,b} up to length 3 and longer ones, case pairs, non-letters 0x20 apart, 0xC9/0xE9, NUL in views): equals the " \
+             "edit distance with unit costs for insert / delete / replace"
+    family(ck, "LEVENSHTEIN", tu, "tlx::levenshtein", {("ptr", "ptr"): gen(False, "ptr"), ("view", "view"): gen(False, "view")}, detail)
+    family(ck, "LEVENSHTEIN", tu, "tlx::levenshtein_icase", {("ptr", "ptr"): gen(True, "ptr"), ("view", "view"): gen(True, "view")}, detail + " on the ASCII-lower-cased strings")
+
+
+# ---- join, and split as its inverse
+def check_join(ck, tu_j, tu_s):
+    small = words(bytes([97, 0, HI]), 2)
+    lists = [[a] for a in small] + [[a, b] for a in small for b in small] + [list(t) for t in itertools.product([b"", b"a", b"\x00"], repeat=3)]
+    glues = {"char": [(bytes([c]), (lambda c=c: c)) for c in (44, 0, HI)],
+             "ptr": [(g, (lambda g=g: cstr_of(g))) for g in (b",", b", ", bytes([HI, 97]), b"")],
+             "view": [(b",", lambda: inside(b",", b"a", b",a")), (b"\x00", lambda: inside(b"\x00")), (b"\x00,", lambda: inside(b"\x00,")), (b"", lambda: inside(b"", b"", b",")),
+                      (bytes([HI, 97]), lambda: view_of(bytes([HI, 97])))]}
+    splitters = {"char": ("char", "view", "int"), "ptr": ("view", "view", "int"), "view": ("view", "view", "int")}
+
+    def one(kind):
+        fn = the_overload(tu_j, "tlx::join", (kind, "vec"))
+        tag = "join(%s,vec)" % kind
+        sp = the_overload(tu_s, "tlx::split", splitters[kind])
+        n = back = 0
+        for g, mk in glues[kind]:
+            for parts in lists:
+                want = g.join(parts)
+                o = located(fn, lambda: observed(tu_j, fn, [mk(), Vec([Str(p) for p in parts], "str")]))
+                if o != ("ok", want):
+                    ck.violation("JOIN-SPLIT", fn.qname, tag, "glue=\"%s\" parts=%r: %s, the documented result is %r (the parts with the glue between each two)"
+                                 % (hx(g), parts, shown(o), want), fn.loc)
+                    return
+                n += 1
+                # the inverse: defined when the glue is not empty and occurs in the joined string at the glue positions only
+                if not g:
+                    continue
+                at, p = [], 0
+                for x in parts[:-1]:
+                    p += len(x)
+                    at.append(p)
+                    p += len(g)
+                if [i for i in range(len(want)) if want.startswith(g, i)] != at:
+                    continue
+                sep = g[0] if kind == "char" else view_of(g)
+                r = located(sp, lambda: observed(tu_s, sp, [sep, view_of(want), NPOS]))
+                if r != ("ok", parts):
+                    ck.violation("JOIN-SPLIT", sp.qname, tag + ":split", "glue=\"%s\" parts=%r: join gives %r, but split of that with the same separator %s: "
+                                 "the parts do not survive the round trip" % (hx(g), parts, want, shown(r)), sp.loc)
+                    return
+                back += 1
+        ck.ok("JOIN-SPLIT", tag, "%d part lists x glue (1..3 parts over {a, NUL, 0xE9}, glue incl. NUL / 0xE9 / two bytes / a non-terminated view): the result is the "
+              "parts with the glue between each two; for the %d of them whose glue neither occurs in nor straddles the parts split() returns the parts" % (n, back))
+    present = overloads(tu_j, "tlx::join")
+    for f in present:
+        if f.file.endswith("join.cpp") and (len(f.params) != 2 or sig_of(f)[0] not in glues or sig_of(f)[1] != "vec"):
+            ck.guarded(lambda f=f: undecided("%s: overload join(%s) has no input family in rule JOIN-SPLIT" % (f.loc, ", ".join(sig_of(f)))))
+    for kind in ("char", "ptr", "view"):
+        ck.guarded(lambda kind=kind: one(kind))
+
+
+NORMALISED = ["tlx/string/%s.cpp" % f for f in ("base64", "hexdump", "split", "split_view", "join_quoted", "split_quoted", "compare_icase", "equal_icase",
+                                                 "less_icase", "replace")]
+# the helpers' translation units are taken as they are: the evaluating rules interpret calls of new private helpers and new
+# locals themselves, and engine/normalize.py takes every function that data/known.json does not list for a new helper to inline
+RAW = ["tlx/string/%s.cpp" % f for f in ("trim", "starts_with", "ends_with", "contains", "to_lower", "to_upper", "erase_all", "pad", "join")] + \
+      ["tlx/string/levenshtein.hpp"]
+
+
+class Units:
+    """the translation units of this property, extracted side by side (the extractor is a subprocess); a unit that cannot be
+    extracted raises where a rule asks for it"""
+
+    def __init__(self):
+        from concurrent.futures import ThreadPoolExecutor
+        self.got = {}
+        st = ir.stats()
+        base = dict(tus=st["tus"], functions=st["functions"], nodes=st["nodes"], files=list(st["files"]))
+
+        def job(src):
+            try:
+                return ir.extract(src, extra_flags=["-xc++"] if src.endswith(".hpp") else ())
+            except Exception as e:          # handed to the rule that needs the unit
+                return e
+        workers = 1 if os.environ.get("VERIF_RECORD_KNOWN") else 8
+        for group, raw in ((NORMALISED, False), (RAW, True)):
+            old = os.environ.get("VERIF_NO_NORMALIZE")
+            if raw:
+                os.environ["VERIF_NO_NORMALIZE"] = "1"
+            try:
+                with ThreadPoolExecutor(max_workers=workers) as ex:
+                    for src, r in zip(group, ex.map(job, group)):
+                        self.got[src] = r
+            finally:
+                if raw and old is None:
+                    del os.environ["VERIF_NO_NORMALIZE"]
+                elif raw:
+                    os.environ["VERIF_NO_NORMALIZE"] = old
+        good = [(src, r) for src, r in self.got.items() if not isinstance(r, Exception)]          # the counters, independent of the threads' timing
+        st["tus"] = base["tus"] + len(good)
+        st["functions"] = base["functions"] + sum(len(r.functions) for _, r in good)
+        st["nodes"] = base["nodes"] + sum(f.d.get("nodes", 0) for _, r in good for f in r.functions)
+        st["files"][:] = base["files"] + [src for src, _ in good]
+
+    def __call__(self, name):
+        src = "tlx/string/" + name + ("" if name.endswith(".hpp") else ".cpp")
+        r = self.got[src]
+        if isinstance(r, Exception):
+            raise r
+        return r
+
+
 def run(ck):
     ck.explanation = (
         "Writer/reader agreement decided by evaluating the extracted ASTs on a small abstract machine (integers, bytes, pointers into buffers, std::string, "
@@ -2414,23 +3161,45 @@ def run(ck):
         "SCAN-WINDOW / FORWARD-ROLES: every split / split_view overload is run on all strings over {a,b} up to length 4 and compared with the left-to-right "
         "non-overlapping cut (a window that leaves the string is a fault of the run). QUOTE-AGREE: split_quoted(join_quoted(v)) == v for all short field lists over "
         "the special characters. CMP3-ORIENT / ICASE-OVERLOADS: all 12 overloads on all pairs of short mixed-case strings. REPLACE-RESUME: all four replace_all "
-        "overloads on all short strings. Values of the other pure helpers (trim, pad, levenshtein...) are not decided.")
+        "overloads on all short strings. TRIM-SEMANTICS / AFFIX-SEMANTICS / CASE-MAP / ERASE-ALL / REPLACE-FIRST / REPLACE-BYTES / PAD / LEVENSHTEIN / "
+        "JOIN-SPLIT: every overload of trim / trim_left / trim_right, starts_with(_icase) / ends_with(_icase) / contains, to_lower / to_upper, erase_all, "
+        "replace_first / replace_all, pad, levenshtein(_icase) and join is run on a complete small family of inputs whose alphabets contain NUL and a byte >= 0x80 "
+        "and whose drop sets / needles / glue are also string_views that are not NUL-terminated (views into the middle of a longer buffer), and compared with a "
+        "direct implementation of the doc comment (strip the drop set from the documented ends, prefix / suffix / substring test, ASCII-only case map, filter, "
+        "leftmost / left-to-right replacement, truncate-or-pad on the right, unit-cost edit distance, parts with glue between them and split as the inverse of join "
+        "when the glue neither occurs in nor straddles the parts). Each overload is decided on its own; a missing, ambiguous or new overload is 'cannot decide'. "
+        "Default arguments written in the headers are not decided.")
     ck.assumptions.append("tlx::to_lower / to_upper (defined in another translation unit) map A-Z / a-z and leave every other byte unchanged")
     ck.assumptions.append("std::string, std::vector, string_view members and the std algorithms used are modelled by their specification")
-    tu_b = ir.extract("tlx/string/base64.cpp")
+    ck.assumptions.append("tlx::simple_vector<integer> is modelled as an array whose elements start uninitialised (a read of one is 'cannot decide')")
+    unit = Units()
+    tu_b = unit("base64")
     ck.guarded(lambda: check_base64(ck, tu_b))
-    tu_h = ir.extract("tlx/string/hexdump.cpp")
+    tu_h = unit("hexdump")
     ck.guarded(lambda: check_hex(ck, tu_h))
-    tu_s = ir.extract("tlx/string/split.cpp")
+    tu_s = unit("split")
     ck.guarded(lambda: check_split_family(ck, tu_s, "split"))
-    tu_v = ir.extract("tlx/string/split_view.cpp")
+    tu_v = unit("split_view")
     ck.guarded(lambda: check_split_family(ck, tu_v, "split_view"))
-    tu_j, tu_q = ir.extract("tlx/string/join_quoted.cpp"), ir.extract("tlx/string/split_quoted.cpp")
+    tu_j, tu_q = unit("join_quoted"), unit("split_quoted")
     ck.guarded(lambda: check_quote(ck, tu_j, tu_q))
-    tus = {f: ir.extract("tlx/string/%s.cpp" % f) for f in ("compare_icase", "equal_icase", "less_icase")}
+    tus = {f: unit(f) for f in ("compare_icase", "equal_icase", "less_icase")}
     ck.guarded(lambda: check_icase(ck, tus))
-    tu_r = ir.extract("tlx/string/replace.cpp")
+    tu_r = unit("replace")
     ck.guarded(lambda: ck.require(check_replace(ck, tu_r) == 4, "expected the four replace_all overloads"))
+    # ---- the pure helpers against their documented definition (each overload decided on its own)
+    ck.guarded(lambda: check_replace_bytes(ck, tu_r))
+    ck.guarded(lambda: check_trim(ck, unit("trim")))
+    ck.guarded(lambda: check_affix(ck, unit("starts_with"), unit("ends_with"), unit("contains")))
+    ck.guarded(lambda: check_case(ck, unit("to_lower"), "to_lower"))
+    ck.guarded(lambda: check_case(ck, unit("to_upper"), "to_upper"))
+    ck.guarded(lambda: check_erase_all(ck, unit("erase_all")))
+    ck.guarded(lambda: check_pad(ck, unit("pad")))
+    ck.guarded(lambda: check_levenshtein(ck, unit("levenshtein.hpp")))
+    ck.guarded(lambda: check_join(ck, unit("join"), tu_s))
+    for rule, n in (("TRIM-SEMANTICS", 27), ("AFFIX-SEMANTICS", 12), ("CASE-MAP", 6), ("ERASE-ALL", 4), ("REPLACE-FIRST", 4), ("REPLACE-BYTES", 4), ("PAD", 1),
+                    ("LEVENSHTEIN", 4), ("JOIN-SPLIT", 3)):
+        ck.floor(rule, n)
     ck.floor("REPLACE-RESUME", 4)
     ck.floor("B64-TABLES", 1)
     ck.floor("B64-SKIP", 1)
